@@ -175,15 +175,49 @@ func runC19(s *core.Sim, tier string) RunInfo {
 				h   *H
 				err error
 			}
-			results := make([]res, n)
+			// variant: the first caller's request is in flight; some of the callers that joined it
+			// give up (their own deadline is short), and more callers arrive after that, while the
+			// request is still in flight. They all still share that one request.
+			impatient := map[int]bool{}
+			late := 0
+			farFromExpiry := !now.Add(5 * time.Second).After(subj.Time().Add(TP))
+			if !recent && !expired && farFromExpiry && n >= 2 && (script == "fresh" || script == "lower" || script == "error") &&
+				s.Tape.Coin("waiter-gives-up", 1, 2) {
+				for j, k := 1, 1+s.Tape.Draw("impatient", n-1); j <= k; j++ {
+					impatient[j] = true
+				}
+				late = 1 + s.Tape.Draw("late-callers", 3)
+				s.Probe("head-waiter-gave-up-late-callers-joined")
+			}
+			results := make([]res, n+late)
 			var tasks []*core.Task
-			for j := 0; j < n; j++ {
-				j := j
+			startCaller := func(j int) {
+				patience := 10 * time.Minute
+				if impatient[j] {
+					patience = 50 * time.Millisecond
+				}
 				tasks = append(tasks, s.Go(fmt.Sprintf("head%d", j), func() {
-					c, cancel := context.WithTimeout(ctx, 10*time.Minute)
+					c, cancel := context.WithTimeout(ctx, patience)
 					defer cancel()
 					results[j].h, results[j].err = w.Sy.Head(c)
 				}))
+			}
+			if late > 0 {
+				startCaller(0)
+				s.Quiesce(0) // caller 0 owns the request in flight
+				for j := 1; j < n; j++ {
+					startCaller(j)
+				}
+				s.Quiesce(0)
+				s.Sleep(200 * time.Millisecond) // the impatient ones give up
+				s.Quiesce(0)
+				for j := n; j < n+late; j++ {
+					startCaller(j)
+				}
+			} else {
+				for j := 0; j < n; j++ {
+					startCaller(j)
+				}
 			}
 			// let every caller reach the shared request (or return, if the head is recent), then answer
 			s.Quiesce(0)
@@ -207,7 +241,7 @@ func runC19(s *core.Sim, tier string) RunInfo {
 			} else if expired {
 				state = "expired"
 			}
-			hist = append(hist, fmt.Sprintf("Head() x%d subjective=%d %s script=%s -> %d head requests", n, accepted, state, script, len(headCalls)))
+			hist = append(hist, fmt.Sprintf("Head() x%d (+%d late, %d impatient) subjective=%d %s script=%s -> %d head requests", n, late, len(impatient), accepted, state, script, len(headCalls)))
 			at := map[string]string{"state": state, "script": script}
 			for j, r := range results {
 				if tasks[j].Panic != nil {
@@ -245,7 +279,10 @@ func runC19(s *core.Sim, tier string) RunInfo {
 					s.Violate("head-request-not-verified", at, "the head request carried TrustedHead=%d, the subjective head is %d", headCalls[0].Trusted, accepted)
 				}
 				first := results[0]
-				for _, r := range results {
+				for j, r := range results {
+					if impatient[j] {
+						continue // gave up on the shared request: whatever honest head it got is fine
+					}
 					if r.err != nil {
 						s.Violate("stale-head-error", at, "a non-expired subjective head exists but Head() failed: %v", r.err)
 					} else if first.err == nil && r.h.Height() != first.h.Height() {
